@@ -4,29 +4,29 @@ From PK.Model Require Import C08.
 From PK.Proofs Require C08.
 Import ListNotations.
 
-(* Every planner predicate is sound for every constraint tree: what it claims about the matches holds of each match. *)
-Theorem C08_only_permanode_sound : forall c b, only_perm c = true -> matches c b = true -> m_type b = TPermanode.
+(* Every planner predicate is sound for every constraint tree: what it claims about the matches w holds of each match. *)
+Theorem C08_only_permanode_sound : forall w c b, only_perm c = true -> matches w c b = true -> m_type b = TPermanode.
 Proof. exact C08.only_perm_sound. Qed.
 Print Assumptions C08_only_permanode_sound.
 
-Theorem C08_permanode_types_sound : forall c b, C08.wf_blob b -> perm_types c <> [] -> matches c b = true ->
+Theorem C08_permanode_types_sound : forall w c b, C08.wf_blob b -> perm_types c <> [] -> matches w c b = true ->
   C08.typed_by (perm_types c) b = true.
 Proof. exact C08.perm_types_sound. Qed.
 Print Assumptions C08_permanode_types_sound.
 
-Theorem C08_at_most_one_sound : forall c b, at_most_one c <> 0%N -> matches c b = true -> m_ref b = at_most_one c.
+Theorem C08_at_most_one_sound : forall w c b, at_most_one c <> 0%N -> matches w c b = true -> m_ref b = at_most_one c.
 Proof. exact C08.at_most_one_sound. Qed.
 Print Assumptions C08_at_most_one_sound.
 
-Theorem C08_file_by_wholeref_sound : forall c b, file_by_whole c = true -> matches c b = true -> m_type b = TFile.
+Theorem C08_file_by_wholeref_sound : forall w c b, file_by_whole c = true -> matches w c b = true -> m_type b = TFile.
 Proof. exact C08.file_by_whole_sound. Qed.
 Print Assumptions C08_file_by_wholeref_sound.
 
 (* Whatever unsorted candidate enumeration the planner picks (node types, one blob, files, one camliType, all camli
-   blobs, every blob), matching the candidates gives exactly the matches of the whole world: nothing missed, nothing
+   blobs, every blob), matching the candidates gives exactly the matches w of the whole world: nothing missed, nothing
    extra, nothing twice — for every world, constraint tree and sort. *)
 Theorem C08_unsorted_plan_exact : forall w c s, C08.wf_world w -> src_sorted (pick_source c s) = false ->
-  filter (matches c) (candidates w (pick_source c s)) = filter (matches c) w.
+  filter (matches w c) (candidates w (pick_source c s)) = filter (matches w c) w.
 Proof. exact C08.unsorted_plan_exact. Qed.
 Print Assumptions C08_unsorted_plan_exact.
 
@@ -48,19 +48,19 @@ Theorem C08_query_blobref_exact : forall w c limit l, C08.wf_world w -> query w 
 Proof. exact C08.query_blobref_exact. Qed.
 Print Assumptions C08_query_blobref_exact.
 
-(* time sorts: newest first (ties: greater blobref first), cut at the limit — but of the matches that are neither deleted
+(* time sorts: newest first (ties: greater blobref first), cut at the limit — but of the matches w that are neither deleted
    nor without the time only: this is the proved part of the property for the pre-sorted permanode enumerations *)
 Theorem C08_query_time_sorted_partial : forall w c s limit l,
   query w c s limit = QOrdered l -> planned_sort c s = SLastModDesc \/ planned_sort c s = SCreatedDesc ->
   exists sorted_full, let key := C08.sort_key (planned_sort c s) in
-    Permutation sorted_full (filter (fun b => matches c b && C08.alive key b) w) /\ StronglySorted (C08.kge key) sorted_full /\
+    Permutation sorted_full (filter (fun b => matches w c b && C08.alive key b) w) /\ StronglySorted (C08.kge key) sorted_full /\
     l = map m_ref (C08.lim limit sorted_full).
 Proof. exact C08.query_time_sorted. Qed.
 Print Assumptions C08_query_time_sorted_partial.
 
 (* ... which is the full result when no match is a deleted or time-less permanode *)
-Theorem C08_alive_matches_are_all : forall key w c, Forall (fun b => matches c b = true -> C08.alive key b = true) w ->
-  filter (fun b => matches c b && C08.alive key b) w = C08.full w c.
+Theorem C08_alive_matches_are_all : forall key w c, Forall (fun b => matches w c b = true -> C08.alive key b = true) w ->
+  filter (fun b => matches w c b && C08.alive key b) w = C08.full w c.
 Proof. exact C08.alive_full. Qed.
 Print Assumptions C08_alive_matches_are_all.
 
@@ -88,15 +88,38 @@ Print Assumptions C08_no_duplicates.
 (* the planner rule for "or" before its repair (D6) does lose matches; the current rule gives no type restriction there *)
 Theorem C08_old_or_rule_refuted :
   C08.wf_world C08.d6_world /\ map m_ref (C08.full C08.d6_world C08.d6_cst) = [1; 2]%N /\
-  map m_ref (filter (matches C08.d6_cst) (candidates C08.d6_world (SrcTypes (C08.perm_types_old C08.d6_cst)))) = [1]%N /\
+  map m_ref (filter (matches C08.d6_world C08.d6_cst) (candidates C08.d6_world (SrcTypes (C08.perm_types_old C08.d6_cst)))) = [1]%N /\
   perm_types C08.d6_cst = [].
 Proof. exact C08.old_or_rule_loses_matches. Qed.
 Print Assumptions C08_old_or_rule_refuted.
 
+(* relation constraints (children-of / parents-of over live camliMember and camliPath edges): what the matcher means, and
+   - like every other constraint - whichever plan is chosen the answer is exactly the matches (the theorems above quantify
+   over all constraint trees, relation constraints included) *)
+Theorem C08_relation_any : forall w parent sub b,
+  matches w (C08.rel_leaf parent false sub) b = true <->
+  m_type b = TPermanode /\ exists r q, In r (related w parent b) /\ find_blob w r = Some q /\ matches w sub q = true.
+Proof. exact C08.relation_any_spec. Qed.
+Print Assumptions C08_relation_any.
+
+Theorem C08_relation_all : forall w parent sub b,
+  matches w (C08.rel_leaf parent true sub) b = true <->
+  m_type b = TPermanode /\ related w parent b <> [] /\
+  forall r, In r (related w parent b) -> exists q, find_blob w r = Some q /\ matches w sub q = true.
+Proof. exact C08.relation_all_spec. Qed.
+Print Assumptions C08_relation_all.
+
+Example C08_relation_examples :
+  query C08.rel_world (C08.rel_leaf false false (C08.leaf_perm 2 8)) SBlobRefAsc (-1) = QOrdered [1%N] /\
+  query C08.rel_world (C08.rel_leaf false true (C08.leaf_perm 2 8)) SBlobRefAsc (-1) = QOrdered [] /\
+  query C08.rel_world (C08.rel_leaf true false (C08.rel_leaf false false (C08.leaf_perm 2 8))) SBlobRefAsc (-1) = QOrdered [2; 3]%N.
+Proof. exact C08.relation_examples. Qed.
+Print Assumptions C08_relation_examples.
+
 Example C08_nonvacuous :
   let w := C08.d6_world in let c := C08.d6_cst in
   wf_worldb w = true /\ only_perm c = true /\ pick_source c SUnsorted = SrcAll /\
-  pick_source (Node (Some (OAnd, c, C08.leaf_perm 1 7)) false TNone false None 0 None 0 None) SBlobRefAsc = SrcTypes [7%N] /\
+  pick_source (Node (Some (OAnd, c, C08.leaf_perm 1 7)) false TNone false None 0 None 0 None None) SBlobRefAsc = SrcTypes [7%N] /\
   query w c SBlobRefAsc 1 = QOrdered [1%N] /\ query w c SCreatedDesc (-1) = QOrdered [2; 1]%N.
 Proof. vm_compute. repeat split; reflexivity. Qed.
 Print Assumptions C08_nonvacuous.
